@@ -308,9 +308,10 @@ Proof.
   generalize (match nth_error (bnodes s) ri with
               | Some (Some b) => match b_root_end b with Some e => e | None => [(I_EndExpression, ONone)] end
               | _ => [(I_EndExpression, ONone)] end).
+  generalize (existsb (Nat.eqb (instr_len init s)) (jumps s)). intros tg.
   intros ends. revert s Hs. induction ends as [|e r IH]; intros s Hs; simpl; [exact Hs|].
   apply IH. destruct last as [li|].
-  - destruct (instr_eqb li e && instruction_eqb (fst e) I_EndExpression); exact Hs.
+  - destruct (instr_eqb li e && instruction_eqb (fst e) I_EndExpression && negb tg); exact Hs.
   - exact Hs.
 Qed.
 
